@@ -72,10 +72,11 @@ var primIDs = []int{0, 1, 2, 3, 6, 7, 8, 9, 12, 13, 14, 15, 16, 23, 24, 25, 26, 
 
 type gen struct {
 	r        *rand.Rand
-	numeric  bool // allow numeric type names
-	noHostle bool // only plain identifiers (used to separate name defects from structure defects)
-	plain    bool // the fragment of the Lean theorem: no named types, no error types, no union-typed record field
-	tame     bool // avoid the primitive values with known text defects (-0, v4-mapped addresses)
+	numeric  bool     // allow numeric type names
+	noHostle bool     // only plain identifiers (used to separate name defects from structure defects)
+	plain    bool     // the fragment of the Lean theorem: no named types, no error types, no union-typed record field
+	tame     bool     // avoid the primitive values with known text defects (-0, v4-mapped addresses)
+	pool     []*TSpec // named types to reuse: the same type occurs several times in a value / a stream
 }
 
 func (g *gen) pick(xs []string) string { return xs[g.r.Intn(len(xs))] }
@@ -107,6 +108,9 @@ func (g *gen) primType() *TSpec {
 
 func (g *gen) genType(depth int) *TSpec {
 	r := g.r
+	if len(g.pool) > 0 && r.Intn(4) == 0 {
+		return cloneT(g.pool[r.Intn(len(g.pool))])
+	}
 	if depth <= 0 || r.Intn(4) == 0 {
 		return g.primType()
 	}
@@ -221,10 +225,18 @@ func (g *gen) primBytes1(id int) []byte {
 	case idFloat32:
 		fs := []float32{0, float32(math.Copysign(0, -1)), 1, -1, 1.5, 0.1, 16777216, 16777217, 1e10, 1e30, -1e30, math.MaxFloat32, math.SmallestNonzeroFloat32,
 			float32(math.Inf(1)), float32(math.Inf(-1)), float32(math.NaN()), 9.223372e18, -9.223372e18, 1e-7, 123456.789, r.Float32(), float32(r.NormFloat64() * 1e6)}
+		if r.Intn(3) == 0 {
+			bs := floatBoundaries32()
+			return zed.EncodeFloat32(bs[r.Intn(len(bs))])
+		}
 		return zed.EncodeFloat32(fs[r.Intn(len(fs))])
 	case idFloat64:
 		fs := []float64{0, math.Copysign(0, -1), 1, -1, 1.5, 0.1, 1 << 53, 1<<53 + 2, 1e15, 1e16, 1e21, 1e22, 1e300, -1e300, math.MaxFloat64, math.SmallestNonzeroFloat64,
 			math.Inf(1), math.Inf(-1), math.NaN(), 9223372036854775807, 9223372036854775808, -9223372036854775808, 1e-7, 5e-5, 123456.789, 2.2250738585072014e-308, r.Float64(), r.NormFloat64() * 1e9, float64(r.Int63())}
+		if r.Intn(3) == 0 {
+			bs := floatBoundaries64()
+			return zed.EncodeFloat64(bs[r.Intn(len(bs))])
+		}
 		return zed.EncodeFloat64(fs[r.Intn(len(fs))])
 	case idBool:
 		return zed.EncodeBool(r.Intn(2) == 0)
@@ -515,4 +527,13 @@ func makeValue(zctx *zed.Context, t *TSpec, v *VSpec) (zed.Value, error) {
 	}
 	it := b.Bytes().Iter()
 	return zed.NewValue(typ, it.Next()).Copy(), nil
+}
+
+// makePool draws n named types with distinct names (later ones may mention earlier ones).
+func (g *gen) makePool(n int, names []string) {
+	g.pool = nil
+	for i := 0; i < n && i < len(names); i++ {
+		u := g.genType(1 + g.r.Intn(2))
+		g.pool = append(g.pool, &TSpec{Kind: "named", Name: names[i], Elems: []*TSpec{u}})
+	}
 }
